@@ -463,7 +463,56 @@ class _Unroll(ast.NodeTransformer):
     def visit_FunctionDef(self, node):
         return node if getattr(self, '_inside', False) else self._top(node)
 
+    def _stable(self, name, use):
+        """The tuple bound to `name` reads only constants and names that are not reassigned between its definition and `use`."""
+        root = getattr(self, '_root', None)
+        val = self.env.get(name)
+        if root is None or val is None:
+            return True
+        reads = {n.id for n in ast.walk(val) if isinstance(n, ast.Name)}
+        if not reads:
+            return True
+        d = [s_ for s_ in ast.walk(root) if isinstance(s_, ast.Assign) and s_.value is val]
+        if len(d) != 1:
+            return False
+        order = {}
+
+        def number(stmts):
+            for s_ in stmts:
+                order[id(s_)] = len(order)
+                for fld in ('body', 'orelse', 'finalbody'):
+                    if isinstance(getattr(s_, fld, None), list):
+                        number(getattr(s_, fld))
+                for h in getattr(s_, 'handlers', []) or []:
+                    number(h.body)
+        number(root.body)
+        lo, hi = order.get(id(d[0])), order.get(id(use))
+        if lo is None or hi is None or any(isinstance(a_, (ast.For, ast.While)) for a_ in self._loops_around(root, use)):
+            return False
+        for s_ in ast.walk(root):
+            if isinstance(s_, (ast.Assign, ast.AugAssign, ast.For, ast.Delete)) and s_ is not d[0] and s_ is not use \
+                    and lo < order.get(id(s_), -1) < hi and assigned_names(s_) & reads:
+                return False
+        return True
+
+    @staticmethod
+    def _loops_around(root, node):
+        out = []
+
+        def find(stmts, stack):
+            for s_ in stmts:
+                if s_ is node:
+                    out.extend(stack)
+                    return True
+                for fld in ('body', 'orelse', 'finalbody'):
+                    if isinstance(getattr(s_, fld, None), list) and find(getattr(s_, fld), stack + [s_]):
+                        return True
+            return False
+        find(root.body, [])
+        return out
+
     def _top(self, node):
+        self._root = node
         self._inside = True
         self.generic_visit(node)
         return node
@@ -475,6 +524,8 @@ class _Unroll(ast.NodeTransformer):
         self.generic_visit(node)
         seq = _literal_seq(node.iter, self.env)
         if seq is None or node.orelse:
+            return node
+        if isinstance(node.iter, ast.Name) and not self._stable(node.iter.id, node):
             return node
         body = _without_continue(node.body)
         if body is None or any(isinstance(x, (ast.Break, ast.Continue)) for s_ in body for x in ast.walk(s_)):
@@ -698,3 +749,348 @@ def settle_unreviewed(idx, inlined, inside):
         sites = [f.qualname for f in idx.package_funcs() if lib.calls_named(f.node, name) and f.qualname != q]
         if all(s in inside for s in sites):
             left.remove(q)
+
+
+# ------------------------------------------------------------------ keyed reading of dictionary comprehensions / aliases
+class _Keyed(ast.NodeTransformer):
+    """`for k, v in D.items()` -> `for k in D` with v read as D[k];  `for v in D.values()` -> `for _k in D` with D[_k];
+    `for k in D.keys()` -> `for k in D`;  `a if x is None else b` -> `b if x is not None else a`.  D must be a plain
+    name or attribute chain (reading it twice is the same object)."""
+
+    def _plain(self, e):
+        while isinstance(e, ast.Attribute):
+            e = e.value
+        return isinstance(e, ast.Name)
+
+    def _comp(self, node):
+        from ..index import clone
+        self.generic_visit(node)
+        if len(node.generators) != 1:
+            return node
+        g = node.generators[0]
+        it = g.iter
+        if not (isinstance(it, ast.Call) and isinstance(it.func, ast.Attribute) and it.func.attr in ('items', 'values', 'keys')
+                and not it.args and not it.keywords and self._plain(it.func.value)):
+            return node
+        D = it.func.value
+        if it.func.attr == 'keys' and isinstance(g.target, ast.Name):
+            g.iter = D
+            return node
+        if it.func.attr == 'items' and isinstance(g.target, ast.Tuple) and len(g.target.elts) == 2 \
+                and all(isinstance(t, ast.Name) for t in g.target.elts):
+            k, v = g.target.elts[0].id, g.target.elts[1].id
+        elif it.func.attr == 'values' and isinstance(g.target, ast.Name):
+            k, v = '_k', g.target.id
+        else:
+            return node
+        if k == v:
+            return node
+        bind = {v: ast.Subscript(value=clone(D), slice=ast.Name(id=k, ctx=ast.Load()), ctx=ast.Load())}
+        for fld in ('elt', 'key', 'value'):
+            if hasattr(node, fld):
+                setattr(node, fld, nf.subst(getattr(node, fld), bind))
+        g.ifs = [nf.subst(t, bind) for t in g.ifs]
+        g.target = ast.Name(id=k, ctx=ast.Store())
+        g.iter = clone(D)
+        return node
+
+    visit_ListComp = visit_SetComp = visit_GeneratorExp = visit_DictComp = _comp
+
+    def visit_IfExp(self, node):
+        self.generic_visit(node)
+        t = node.test
+        if isinstance(t, ast.Compare) and len(t.ops) == 1 and isinstance(t.ops[0], ast.Is) and isinstance(t.comparators[0], ast.Constant) \
+                and t.comparators[0].value is None:
+            return ast.copy_location(ast.IfExp(test=ast.Compare(left=t.left, ops=[ast.IsNot()], comparators=t.comparators),
+                                               body=node.orelse, orelse=node.body), node)
+        return node
+
+
+def settled(fi, keyed=True):
+    """View of a function with (a) single-assignment aliases of plain attribute chains / parameters substituted and
+    (b) dictionary comprehensions over items()/values()/keys() read in the keyed form."""
+    from ..index import clone, set_parents, walk_own
+    node = clone(fi.node)
+    counts = {}
+    for n in walk_own(node):
+        for t in (n.targets if isinstance(n, ast.Assign) else [n.target] if isinstance(n, (ast.AugAssign, ast.For, ast.comprehension)) else []):
+            for x in ast.walk(t):
+                if isinstance(x, ast.Name):
+                    counts[x.id] = counts.get(x.id, 0) + 1
+    # `a, b = x, y` with values that read none of the targets is the two assignments in sequence
+    split = []
+    for s in node.body:
+        if isinstance(s, ast.Assign) and len(s.targets) == 1 and isinstance(s.targets[0], (ast.Tuple, ast.List)) \
+                and isinstance(s.value, (ast.Tuple, ast.List)) and len(s.targets[0].elts) == len(s.value.elts) \
+                and all(isinstance(t, ast.Name) for t in s.targets[0].elts) \
+                and not ({t.id for t in s.targets[0].elts} & {n.id for n in ast.walk(s.value) if isinstance(n, ast.Name)}) \
+                and not all(isinstance(v, ast.Name) for v in s.value.elts):
+            split.extend(ast.copy_location(ast.Assign(targets=[t], value=v), s) for t, v in zip(s.targets[0].elts, s.value.elts))
+        else:
+            split.append(s)
+    node.body = split
+    alias = {}
+    drop = []
+
+    def source_ok(v):
+        if isinstance(v, ast.Attribute):
+            return _Keyed()._plain(v)
+        # another local bound once (the same object under two names) or a parameter that is never rebound
+        return isinstance(v, ast.Name) and (counts.get(v.id, 0) == 1 or (v.id in fi.params and counts.get(v.id, 0) == 0))
+    for s in node.body:
+        if not isinstance(s, ast.Assign) or len(s.targets) != 1:
+            continue
+        t, v = s.targets[0], s.value
+        if isinstance(t, ast.Name):
+            pairs = [(t, v)]
+        elif isinstance(t, (ast.Tuple, ast.List)) and isinstance(v, (ast.Tuple, ast.List)) and len(t.elts) == len(v.elts) \
+                and all(isinstance(x, ast.Name) for x in t.elts):
+            pairs = list(zip(t.elts, v.elts))
+        else:
+            continue
+        if all(counts.get(a.id) == 1 and a.id not in fi.params and source_ok(b) for a, b in pairs):
+            for a, b in pairs:
+                alias[a.id] = nf.subst(b, alias)
+            drop.append(s)
+    if alias:
+        body = []
+        for s in node.body:
+            if any(s is d_ for d_ in drop):
+                continue
+            body.append(nf._Subst(alias).visit(s))
+        node.body = body
+    if keyed:
+        node = _Keyed().visit(node)
+    ast.fix_missing_locations(node)
+    set_parents(node)
+    return View(fi, node)
+
+
+# ------------------------------------------------------------------ inlining of decision-tree helpers
+def _tree_of(callee):
+    """[(guards, kind, expr)] for a helper that (after unrolling) is a loop-free decision tree without effects whose
+    guards and results mention only its parameters and globals; None otherwise."""
+    view = unrolled(callee)
+    fn = view.node
+    if fn.args.vararg or fn.args.kwarg or any(isinstance(n, (ast.For, ast.While, ast.Try, ast.With, ast.Yield, ast.YieldFrom, ast.Lambda,
+                                                              ast.FunctionDef, ast.Global, ast.Nonlocal)) and n is not fn for n in ast.walk(fn)):
+        return None
+    try:
+        paths = nf.decision_paths(fn.body, max_paths=64)
+    except AnalysisError:
+        return None
+    from ..index import local_names
+    locs = set(local_names(fn)) - set(callee.params)
+    out = []
+    for p_ in paths:
+        if p_.effects or p_.leaf.kind == 'fall':
+            return None
+        exprs = list(p_.guards) + ([p_.leaf.expr] if p_.leaf.expr is not None else [])
+        if any(isinstance(n, ast.Name) and n.id in locs for e in exprs for n in ast.walk(e)):
+            return None
+        out.append((p_.guards, p_.leaf.kind, p_.leaf.expr))
+    return out
+
+
+def inline_decision_calls(idx, fi, only=None):
+    """View of the function in which statements `T = helper(args)` / `return helper(args)` calling a decision-tree helper
+    (see _tree_of) with side-effect-free arguments are replaced by the helper's own if/elif chain.  Returns (view, names)."""
+    from ..index import clone, set_parents
+    orig = getattr(fi, 'original', fi)
+    node = clone(fi.node)
+    mapping = {}
+    for a, b in zip(ast.walk(fi.node), ast.walk(node)):
+        if isinstance(a, ast.Call):
+            mapping[id(b)] = a
+    done = set()
+
+    def simple(e):
+        return all(isinstance(n, (ast.Name, ast.Constant, ast.Attribute, ast.UnaryOp, ast.BinOp, ast.Load, ast.operator, ast.unaryop, ast.Subscript))
+                   for n in ast.walk(e))
+
+    def expand(stmt):
+        call = stmt.value if isinstance(stmt, (ast.Assign, ast.Return)) else None
+        if not isinstance(call, ast.Call) or (isinstance(stmt, ast.Assign) and len(stmt.targets) != 1):
+            return None
+        a = mapping.get(id(call))
+        if a is None:
+            return None
+        try:
+            targets, how = idx.resolve_call(orig, a)
+        except Exception:
+            return None
+        fts = [t for t in targets if hasattr(t, 'node')]
+        if len(fts) != 1 or (only is not None and fts[0].qualname not in only):
+            return None
+        callee = fts[0]
+        tree = _tree_of(callee)
+        if not tree:
+            return None
+        params = list(callee.params)
+        if callee.cls is not None and not callee.is_static:
+            params = params[1:]
+            if any(isinstance(n, ast.Name) and n.id == callee.params[0] for g, k, e in tree for x in list(g) + ([e] if e is not None else [])
+                   for n in ast.walk(x)) and not (isinstance(call.func, ast.Attribute) and is_name(call.func.value, 'self')
+                                                  and orig.params and orig.params[0] == 'self' and callee.params[0] == 'self'):
+                return None
+        try:
+            bound = bind_call(call, params)
+        except AnalysisError:
+            return None
+        if set(bound) != set(params) or not all(simple(v) for v in bound.values()):
+            return None
+
+        def leaf(kind, e):
+            e = nf.subst(e, bound) if e is not None else None
+            if kind == 'raise':
+                return ast.Raise(exc=e, cause=None)
+            if isinstance(stmt, ast.Return):
+                return ast.Return(value=e)
+            return ast.Assign(targets=[clone(stmt.targets[0])], value=e)
+        chain = None
+        for g, kind, e in reversed(tree):
+            body = [ast.copy_location(leaf(kind, e), stmt)]
+            if chain is None:
+                chain = body
+            else:
+                gs = [nf.subst(x, bound) for x in g]
+                test = gs[0] if len(gs) == 1 else ast.BoolOp(op=ast.And(), values=gs)
+                chain = [ast.copy_location(ast.If(test=test, body=body, orelse=chain), stmt)]
+        done.add(callee.qualname)
+        return chain
+
+    def rewrite(stmts):
+        out = []
+        for st in stmts:
+            rep = expand(st)
+            if rep is not None:
+                out.extend(rep)
+                continue
+            for fld in ('body', 'orelse', 'finalbody'):
+                if isinstance(getattr(st, fld, None), list) and not isinstance(st, (ast.FunctionDef, ast.ClassDef)):
+                    setattr(st, fld, rewrite(getattr(st, fld)))
+            if isinstance(st, ast.Try):
+                for h in st.handlers:
+                    h.body = rewrite(h.body)
+            out.append(st)
+        return out
+    node.body = rewrite(node.body)
+    if not done:
+        return fi, done
+    ast.fix_missing_locations(node)
+    set_parents(node)
+    return View(fi, node), done
+
+
+# ------------------------------------------------------------------ hoisting of straight-line helpers
+def inline_straight_calls(idx, fi, only=None):
+    """View in which a call of a straight-line helper (`name = expr ...; return expr`, see _pure_body) that is evaluated
+    exactly once by its statement (right-hand side of an assignment / expression statement / return value / iterable of
+    a for loop; not under a short-circuit operator, conditional expression, lambda or comprehension) is replaced by the
+    helper's return expression, with the helper's local bindings hoisted in front of the statement under fresh names.
+    Returns (view, qualified names inlined)."""
+    from ..index import clone, set_parents
+    orig = getattr(fi, 'original', fi)
+    node = clone(fi.node)
+    mapping = {}
+    for a, b in zip(ast.walk(fi.node), ast.walk(node)):
+        if isinstance(a, ast.Call):
+            mapping[id(b)] = a
+    done = set()
+    counter = [0]
+
+    def once_calls(e):
+        """Calls in e that are evaluated exactly once when e is."""
+        out = []
+
+        def go(x):
+            if isinstance(x, (ast.BoolOp, ast.IfExp, ast.Lambda, ast.ListComp, ast.SetComp, ast.DictComp, ast.GeneratorExp)):
+                if isinstance(x, ast.BoolOp):
+                    go(x.values[0])
+                elif isinstance(x, ast.IfExp):
+                    go(x.test)
+                elif not isinstance(x, ast.Lambda):
+                    go(x.generators[0].iter)
+                return
+            if isinstance(x, ast.Call):
+                out.append(x)
+            for c in ast.iter_child_nodes(x):
+                go(c)
+        go(e)
+        return out
+
+    def expand(st):
+        if isinstance(st, (ast.Assign, ast.Expr, ast.Return)) and st.value is not None:
+            holder, fld = st, 'value'
+        elif isinstance(st, ast.For):
+            holder, fld = st, 'iter'
+        else:
+            return None
+        pre = []
+        for call in once_calls(getattr(holder, fld)):
+            a = mapping.get(id(call))
+            if a is None:
+                continue
+            try:
+                targets, how = idx.resolve_call(orig, a)
+            except Exception:
+                continue
+            fts = [t for t in targets if hasattr(t, 'node')]
+            if len(fts) != 1 or (only is not None and fts[0].qualname not in only):
+                continue
+            callee = fts[0]
+            body = [s_ for s_ in callee.node.body if not (isinstance(s_, ast.Expr) and isinstance(s_.value, ast.Constant))]
+            if _pure_body(callee) is None or len(body) < 2:
+                continue
+            params = list(callee.params)
+            recv = None
+            if callee.cls is not None and not callee.is_static:
+                recv, params = params[0], params[1:]
+                if not (isinstance(call.func, ast.Attribute) and is_name(call.func.value, 'self') and recv == 'self'):
+                    continue
+            try:
+                bound = bind_call(call, params)
+            except AnalysisError:
+                continue
+            if set(bound) != set(params) or not all(isinstance(v, (ast.Name, ast.Constant, ast.Attribute)) for v in bound.values()):
+                continue
+            counter[0] += 1
+            ren = {}
+            for s_ in body[:-1]:
+                ren[s_.targets[0].id] = ast.Name(id='%s_h%d' % (s_.targets[0].id, counter[0]), ctx=ast.Load())
+            sub = dict(bound)
+            sub.update(ren)
+            for s_ in body[:-1]:
+                pre.append(ast.copy_location(ast.Assign(targets=[ast.Name(id=ren[s_.targets[0].id].id, ctx=ast.Store())],
+                                                        value=nf.subst(s_.value, sub)), st))
+            new = nf.subst(body[-1].value, sub)
+            # replace the call node in place
+            for par_ in ast.walk(holder):
+                for f_, v_ in ast.iter_fields(par_):
+                    if v_ is call:
+                        setattr(par_, f_, new)
+                    elif isinstance(v_, list):
+                        for i_, x_ in enumerate(v_):
+                            if x_ is call:
+                                v_[i_] = new
+            done.add(callee.qualname)
+        return pre or None
+
+    def rewrite(stmts):
+        out = []
+        for st in stmts:
+            pre = expand(st)
+            for fld in ('body', 'orelse', 'finalbody'):
+                if isinstance(getattr(st, fld, None), list) and not isinstance(st, (ast.FunctionDef, ast.ClassDef)):
+                    setattr(st, fld, rewrite(getattr(st, fld)))
+            for h in getattr(st, 'handlers', []) or []:
+                h.body = rewrite(h.body)
+            out.extend(pre or [])
+            out.append(st)
+        return out
+    node.body = rewrite(node.body)
+    if not done:
+        return fi, done
+    ast.fix_missing_locations(node)
+    set_parents(node)
+    return View(fi, node), done
